@@ -9,12 +9,7 @@ impl Lang {
 // R18: `to_vec(s)` = s.chars().collect()
 #[verifier::external_body]
 fn to_vec(s: &str) -> (r: Vec<char>) ensures r@ == s@ { s.chars().collect() }
-// C12: the ranking an empty query must return: the `limit` best of the *given* records by (rating desc, normalised title asc).
-// Uninterpreted here: what matters for C10/C12 is *which* records and *which* limit it is applied to.
-pub uninterp spec fn spec_top(records: Seq<Record>, limit: usize) -> Seq<usize>;
-// R12: the chain `records.iter().limit_sort_unstable(limit, cmp).map(|r| r.ix).collect()` of top_ixs, outlined
-#[verifier::external_body]
-fn top_ixs_tail(records: &Vec<Record>, limit: usize) -> (r: Vec<usize>) ensures r@ == spec_top(records@, limit) { unimplemented!() }
+//@include ../common/store_contract.rs
 // @item rust/core/src/store/mod.rs :: static DEFAULT_LIMIT
 pub const DEFAULT_LIMIT: usize = 10;
 // @item rust/core/src/store/store.rs :: struct Store
@@ -27,20 +22,18 @@ pub struct Store {
     pub index: TrigramIndex,
     pub top_ixs: Option<(usize, Vec<usize>)>,
 }
-impl Store {
-    // C10: the store is observably a freshly built one: positions are consecutive, the index has one slot per record,
-    // and the cached empty-query ranking, when present, is the ranking of the CURRENT records under the CURRENT limit
-    pub open spec fn coherent(&self) -> bool {
-        &&& self.next_ix == self.records@.len() && self.index.len == self.records@.len() && self.records@.len() < 0x4000_0000
-        &&& self.index.wf()
-        &&& (forall|k: int| 0 <= k < self.records@.len() ==> (#[trigger] self.records@[k]).ix == k)
-        // the cache is keyed by the limit it was computed for, so a direct write of `store.limit` (lib.rs::set_limit)
-        // cannot make it stale
-        &&& (self.top_ixs matches Some(p) ==> p.1@ == spec_top(self.records@, p.0))
-    }
-    pub open spec fn fresh(&self) -> bool {
-        self.next_ix == 0 && self.records@.len() == 0 && self.index.len == 0 && self.index.dict@ == Map::<[char; 3], Vec<usize>>::empty() && self.top_ixs is None
-    }
+// the ranking is a selection of record positions: with positions consecutive (coherent) it satisfies top_post
+proof fn lemma_top(recs: Seq<Record>, limit: usize)
+    requires forall|k: int| 0 <= k < recs.len() ==> (#[trigger] recs[k]).ix == k,
+        ls_spec(rec_refs(recs), limit, CmpRecords).len() == (if recs.len() < limit { recs.len() } else { limit as nat }),
+        exists|idx: Seq<int>| selection(ls_spec(rec_refs(recs), limit, CmpRecords), rec_refs(recs), idx),
+    ensures top_post(recs.len() as int, limit as int, spec_top(recs, limit)),
+{
+    let sel = ls_spec(rec_refs(recs), limit, CmpRecords);
+    let idx = choose|idx: Seq<int>| selection(sel, rec_refs(recs), idx);
+    let r = spec_top(recs, limit);
+    assert forall|k: int| 0 <= k < r.len() implies #[trigger] r[k] == idx[k] by { assert(sel[k] == rec_refs(recs)[idx[k]]); }
+    assert forall|a: int, b: int| 0 <= a < r.len() && 0 <= b < r.len() && a != b implies r[a] != r[b] by { assert(idx[a] != idx[b]); }
 }
 // @item rust/core/src/store/store.rs :: impl Store
 impl Store {
@@ -53,6 +46,9 @@ impl Store {
         requires old(self).coherent(), old(self).records@.len() + 1 < 0x4000_0000, text_ok_s(record.title.words@, record.title.chars@.len() as int),
         ensures final(self).coherent(), // [C10 C12]
             final(self).records@.len() == old(self).records@.len() + 1, final(self).limit == old(self).limit, final(self).dividers == old(self).dividers,
+            // C02 / C10: the earlier records are untouched and the new one is stored as given (id, title, rating) at the next position
+            forall|k: int| 0 <= k < old(self).records@.len() ==> final(self).records@[k] == old(self).records@[k], // [C10 C02]
+            final(self).records@.last().id == record.id && final(self).records@.last().title == record.title && final(self).records@.last().rating == record.rating, // [C10 C02]
     {
         let Self { next_ix, index, records, top_ixs, .. } = self;
         vassert(*next_ix == records.len());
@@ -96,15 +92,48 @@ impl Store {
         requires old(self).coherent(),
         ensures final(self).coherent(), // [C10 C12]
             ret@ == spec_top(final(self).records@, final(self).limit), // [C10 C12]
+            // C12 / C06: min(limit, number of records) positions of existing records, none twice
+            top_post(final(self).records@.len() as int, final(self).limit as int, ret@), // [C12 C06]
             final(self).records@ == old(self).records@, final(self).limit == old(self).limit,
     {
         let top_ixs = &mut self.top_ixs;
+        let ghost recs = self.records@;
         if let Some((limit, ixs)) = top_ixs {
             if *limit == self.limit {
                 return ixs.clone();
             }
         }
-        let ixs = top_ixs_tail(&self.records, self.limit);
+        let ixs = {
+            let mut __items0: Vec<&Record> = Vec::new();
+            let mut __p0 = 0;
+            while __p0 < self.records.len()
+                invariant __p0 <= self.records@.len(), recs == self.records@, __items0@.len() == __p0,
+                    forall|m: int| 0 <= m < __items0@.len() ==> #[trigger] __items0@[m] == &recs[m],
+                decreases self.records@.len() - __p0,
+            {
+                let __ix = __p0;
+                __p0 += 1;
+                let __cur = &self.records[__ix];
+                __items0.push(__cur);
+            }
+            let __sel0 = limit_sort_all(__items0, self.limit, CmpRecords);
+            proof { assert(__items0@ =~= rec_refs(recs)); }
+            let mut __out0: Vec<usize> = Vec::new();
+            let mut __q0 = 0;
+            while __q0 < __sel0.len()
+                invariant __q0 <= __sel0@.len(), __out0@.len() == __q0,
+                    forall|k: int| 0 <= k < __out0@.len() ==> #[trigger] __out0@[k] == __sel0@[k].ix,
+                decreases __sel0@.len() - __q0,
+            {
+                let __jx = __q0;
+                __q0 += 1;
+                let r = &__sel0[__jx];
+                let __cur = r.ix;
+                __out0.push(__cur);
+            }
+            proof { assert(__out0@ =~= spec_top(recs, self.limit)); lemma_top(recs, self.limit); }
+            __out0
+        };
         *top_ixs = Some((self.limit, ixs.clone()));
         ixs
     }
